@@ -65,6 +65,8 @@ def spec_env(I, st, extra):
 
 def check_inv(I, st, ls, k, env, tag):
     fi = st.frame.func
+    for cl in getattr(ls, "axioms", []):
+        st.assume(specs.eval_clause(I, st, cl, env, fi))
     for cl in ls.invariant:
         g = specs.eval_clause(I, st, cl, env, fi)
         st.oblige("%s.loop[%d].%s[%s]" % (I.short(fi), k, tag, cl.label), g,
